@@ -36,7 +36,7 @@ YOUR TASK: make ONE small, realistic change to the non-test Go source under {wt}
  4. the violation needs something SPECIFIC to manifest — a particular interleaving or timing, a fault or stop at a particular point, a multi-step sequence of operations, an unusual-but-valid input or configuration, or a particular system state — NOT something every ordinary run would expose at once.
 Do not edit or delete existing tests. Do not touch files whose name starts with verif_ (build-tag hooks). Prefer changes in the files the property is anchored in.
 
-ADDITIONAL GUIDANCE FOR THIS ROUND: other engineers already tried the ideas listed below for this property; produce something DIFFERENT in kind. Prefer a defect that only shows under a particular *schedule, timing, fault or lifecycle point* (e.g. a stop/cancel/error/link event/re-initialisation arriving at a particular moment, a slow or failing system call, a request racing initialisation, an event arriving while another is pending, state carried over from one connection generation to the next, a value cached across a change, an error path that skips a step, a particular interleaving of concurrent callers) or under two cooperating edits that each look harmless. Already tried:
+ADDITIONAL GUIDANCE FOR THIS ROUND: other engineers already tried the ideas listed below for this property; produce something DIFFERENT in kind. Prefer a defect that only shows under a particular *schedule, timing, fault or lifecycle point* (e.g. a stop/cancel/error/link event/re-initialisation arriving at a particular moment, a slow or failing system call, a request racing initialisation, an event arriving while another is pending, state carried over from one connection generation to the next, a value cached across a change, an error path that skips a step, a particular interleaving of concurrent callers) or under two cooperating edits that each look harmless. The change need not be in the anchored files: anything the property's behaviour passes through (configuration parsing, plugins, internal/system, internal/netstate, metrics, the debug HTTP handler, the server's task supervision) is fair game, as long as it is THIS property that ends up violated. Already tried:
 """ + "".join(" - %s\n" % t for t in tried) + f"""
 DELIVERABLES, all inside {wt}:
  - the source change itself left applied in the working tree (uncommitted), and also saved with `git diff > {wt}/patch.diff` (the diff must contain only your source change, not the demo);
